@@ -23,9 +23,13 @@ structure DateState where
 /-- `DateYYYYMMDD.compose()`: `(text, native)` built from the members' current values.
     `.error` = CPython's int→str digit limit inside `self.format % data` (neither AdaptationError
     nor TypeError, so it leaves `compose`). -/
+def asInt : Native → Option Int
+  | .int i => some i
+  | _ => none
+
 def composeDate (E : Env) (vy vm vd : Native) : Except Raise (Str × Native) :=
-  match vy, vm, vd with
-  | .int y, .int m, .int d =>
+  match asInt vy, asInt vm, asInt vd with
+  | some y, some m, some d =>
     if intFits E.T y && intFits E.T m && intFits E.T d then
       let asStr := fmtInt 4 y ++ ['-'] ++ fmtInt 2 m ++ ['-'] ++ fmtInt 2 d    -- `self.format % data`
       match adapt E (.date true) (.str asStr) with                               -- `Date.adapt(self, as_str)`
